@@ -37,3 +37,5 @@ int vfh_aes_cbc_write_key(const ssl_t *ssl, unsigned char *key, int max)
     memcpy(key, ssl->sec.writeKey, cs->keySize);
     return cs->keySize;
 }
+/* TLS 1.3: SignatureScheme of the CertificateVerify this endpoint sent / verified (0 = none) */
+int vfh_tls13_cv_sigalg(const ssl_t *ssl, int peer) { return peer ? ssl->sec.tls13PeerCvSigAlg : ssl->sec.tls13CvSigAlg; }
